@@ -422,6 +422,14 @@ fn run_suite<S: ShortGroupSignatureScheme>(v: &Value, ps: bool) -> Value {
         for &i in &disc_idx {
             rep.insert(format!("l{i}"), rep_claims[i].clone());
         }
+        // the exploit of a response lookup that would follow the holder's order of the reported claims:
+        // the statement the target commitment refers to lists its reported claims in the opposite order
+        let exploit_here = devk == "reorder_shift_exploit"
+            && stmts_spec.iter().any(|st| st["k"] == "comm" && st["id"].as_str() == Some(target.as_str()) && st["ref"].as_str() == Some(id.as_str()));
+        if exploit_here {
+            let r: Vec<(String, ClaimData)> = rep.iter().map(|(k, c)| (k.clone(), c.clone())).rev().collect();
+            rep = r.into_iter().collect();
+        }
         if id == target {
             match devk.as_str() {
                 "false_reported_subst" => {
@@ -590,6 +598,33 @@ fn run_suite<S: ShortGroupSignatureScheme>(v: &Value, ps: bool) -> Value {
         if id == target && devk == "comm_subst_independent" {
             m += Scalar::ONE;
             nm = rnd(&mut cx.rng);
+        }
+        if id == target && devk == "reorder_shift_exploit" {
+            // which response would a walk over the REVERSED disclosed list hand out for this claim?  run the commitment
+            // on that claim's value and nonce (when the walk is not shifted, fall back to a substitute value)
+            let sm = &mats[&r];
+            let off = if sm.ps { 2 } else { 0 };
+            let dr: Vec<usize> = sm.disclosed.iter().rev().map(|(i, _)| *i).collect();
+            let mut j = 0;
+            let mut shifted: Option<usize> = None;
+            for i in 0..cred.msgs.len() {
+                if j < dr.len() && dr[j] == i {
+                    j += 1;
+                    continue;
+                }
+                if i == claim {
+                    shifted = Some(off + i - j);
+                    break;
+                }
+            }
+            let true_slot = off + (0..claim).filter(|i| !sm.disclosed.iter().any(|(d, _)| d == i)).count();
+            match shifted {
+                Some(sl) if sl != true_slot && sl < sm.secrets.len() => {
+                    m = sm.secrets[sl];
+                    nm = sm.nonces[sl];
+                }
+                _ => m += Scalar::ONE,
+            }
         }
         let b = rnd(&mut cx.rng);
         let nb = rnd(&mut cx.rng);
